@@ -392,11 +392,15 @@ func init() {
 		barrierLost := int64(0)
 		{
 			tb := search.NewTranspositionTable(context.Background(), 1<<22) // 131072 slots, one per round
+			tb2 := search.NewTranspositionTable(context.Background(), 1<<23) // 262144 slots, one per writer and round
 			nw := writers
 			if nw < 3 {
 				nw = 3
 			}
 			brounds := 20000
+			if nw*brounds > 200000 {
+				brounds = 200000 / nw
+			}
 			var arrived int64
 			deepOK := make([]bool, brounds)
 			var bw sync.WaitGroup
@@ -411,6 +415,9 @@ func init() {
 								time.Sleep(0)
 							}
 						}
+						// every writer also occupies a fresh slot of its own at the same moment: the fill
+						// counter is bumped concurrently
+						tb2.Write(board.ZobristHash(uint64(rd*nw+w)|0x7f4a7c15<<32), search.ExactBound, 0, 1, eval.ZeroScore, board.Move{})
 						h := board.ZobristHash(uint64(rd) | 0x5bd1e995<<32)
 						if w == 0 {
 							deepOK[rd] = tb.Write(h, search.ExactBound, 0, 10, eval.HeuristicScore(1.5), board.Move{From: board.E2, To: board.E4})
@@ -428,6 +435,9 @@ func init() {
 				}
 			}
 			if u := int(math.Round(tb.Used() * float64(tb.Size()>>5))); u != brounds {
+				barrierLost += 1 << 30
+			}
+			if u := int(math.Round(tb2.Used() * float64(tb2.Size()>>5))); u != brounds*nw {
 				barrierLost += 1 << 30
 			}
 		}
